@@ -1,23 +1,48 @@
-(* C20: the scripting interface is total and agrees with the engine-side view (dispatcher part).
-   Statements only.  script_table is REGENERATED from the built binary on every run (Gen/GenScript.v). *)
-From Coq Require Import ZArith List Bool String.
-From CV Require Import C20.ScriptModel C20.ScriptProofs Gen.GenScript.
+(* C20: the scripting interface is total and agrees with the engine-side view.
+   Statements only.  script_table is REGENERATED from the built binary on every run (Gen/GenScript.v), so the
+   theorems that mention it are re-checked against the command table the binary actually has.
+   What is modelled: the dispatcher colvarscript::run + check_cmd_nargs, and the effect of commands on the sets
+   of objects (variables, biases) the dispatcher looks names up in.  The 86 command BODIES are not modelled
+   (apart from delete/reset/config on the object sets); number agreement and crash freedom of the C++ are
+   checked by the oracle of props/C20/check.py, not proved. *)
+From Coq Require Import ZArith List Bool String Permutation.
+From CV Require Import C20.ScriptModel C20.ScriptProofs C20.ScriptTable C20.GradModel C20.GradProofs Gen.GenScript.
 Import ListNotations.
 Local Open Scope string_scope.
 Local Open Scope Z_scope.
 
 (* the table the binary actually uses is well formed: 0 <= min <= max, names unique, every name carries one
-   of the three prefixes; the two prefix pseudo-commands exist *)
+   of the three prefixes; the two prefix pseudo-commands and the commands the model gives a meaning to exist
+   with the argument counts the model assumes *)
 Theorem GenScript_table_wf : table_wf script_table = true /\
-  lookup script_table "cv_colvar" <> None /\ lookup script_table "cv_bias" <> None /\
-  lookup script_table "cv_version" <> None.
-Proof. vm_compute. repeat split; discriminate. Qed.
+  lookup script_table "cv_colvar" = Some ("cv_colvar", 0, 0) /\ lookup script_table "cv_bias" = Some ("cv_bias", 0, 0) /\
+  lookup script_table "cv_config" = Some ("cv_config", 1, 1) /\ lookup script_table "cv_configfile" = Some ("cv_configfile", 1, 1) /\
+  lookup script_table "cv_reset" = Some ("cv_reset", 0, 0) /\
+  lookup script_table "colvar_delete" = Some ("colvar_delete", 0, 0) /\ lookup script_table "bias_delete" = Some ("bias_delete", 0, 0).
+Proof. exact script_table_wf. Qed.
 Print Assumptions GenScript_table_wf.
 
-(* every entry of the real table is reachable under its own name (no shadowing) *)
-Theorem GenScript_every_command_reachable : forall e, In e script_table -> lookup script_table (e_name e) = Some e.
-Proof. intros e. apply lookup_wf. apply GenScript_table_wf. Qed.
+(* every command of the real table (other than the two prefix pseudo-commands) is run by a command line, under
+   the object class and the command word read off its function name ... *)
+Theorem GenScript_every_command_reachable : forall e cvs bs name, In e script_table -> is_pseudo e = false ->
+  exists k sub, entry_class e = Some (k, sub) /\
+    ((k = OColvar -> In name cvs) -> (k = OBias -> In name bs) ->
+     dispatch script_table cvs bs (witness_words k sub name e) = Run k e true).
+Proof. exact script_table_every_command_reachable. Qed.
 Print Assumptions GenScript_every_command_reachable.
+
+(* ... and under no other: for ANY table, two command lines that run the same command have the same object
+   class and the same command word (whatever objects are defined when each is given) *)
+Theorem C20_one_name_per_command : forall tbl cvs1 bs1 cvs2 bs2 w1 w2 k1 k2 e ex1 ex2,
+  dispatch tbl cvs1 bs1 w1 = Run k1 e ex1 -> dispatch tbl cvs2 bs2 w2 = Run k2 e ex2 ->
+  k1 = k2 /\ cmd_word k1 w1 = cmd_word k2 w2 /\ entry_class e = Some (k1, cmd_word k1 w1).
+Proof. exact one_name_per_command. Qed.
+Print Assumptions C20_one_name_per_command.
+
+Theorem C20_pseudo_commands_never_run : forall tbl cvs bs words k e ex,
+  dispatch tbl cvs bs words = Run k e ex -> is_pseudo e = false.
+Proof. exact pseudo_never_run. Qed.
+Print Assumptions C20_pseudo_commands_never_run.
 
 (* the dispatcher executes a command body exactly in the documented situations, for every table,
    every set of object names and every word list; everything else returns an error *)
@@ -29,12 +54,7 @@ Print Assumptions C20_dispatch_run_iff.
 Theorem C20_dispatch_total : forall tbl colvars biases words,
   (exists k e ex, dispatch tbl colvars biases words = Run k e ex /\ runs tbl colvars biases words k e ex) \/
   (is_error (dispatch tbl colvars biases words) = true /\ ~ exists k e ex, runs tbl colvars biases words k e ex).
-Proof.
-  intros tbl colvars biases words.
-  destruct (dispatch tbl colvars biases words) as [| | | | | |k e ex] eqn:E;
-    try (right; split; [reflexivity | apply dispatch_error_iff; rewrite E; reflexivity]).
-  left. exists k, e, ex. split; [reflexivity | apply dispatch_run_iff; exact E].
-Qed.
+Proof. exact dispatch_total. Qed.
 Print Assumptions C20_dispatch_total.
 
 Theorem C20_unknown_command_rejected : forall tbl colvars biases main cmd name sub rest,
@@ -42,19 +62,117 @@ Theorem C20_unknown_command_rejected : forall tbl colvars biases main cmd name s
      is_error (dispatch tbl colvars biases (main :: cmd :: rest)) = true) /\
   (~ In ("colvar_" ++ sub) (map e_name tbl) ->
      is_error (dispatch tbl colvars biases (main :: "colvar" :: name :: sub :: rest)) = true).
-Proof.
-  intros. split; [apply unknown_module_command_rejected | apply unknown_object_command_rejected].
-Qed.
+Proof. exact unknown_command_rejected. Qed.
 Print Assumptions C20_unknown_command_rejected.
 
 Theorem C20_wrong_argument_count_rejected : forall tbl colvars biases words k e ex,
   dispatch tbl colvars biases words = Run k e ex ->
   shift_of k + e_min e <= Z.of_nat (List.length words) <= shift_of k + e_max e.
-Proof. intros tbl colvars biases words k e ex H. apply dispatch_run_iff in H. exact (wrong_nargs_rejected _ _ _ _ _ _ _ H). Qed.
+Proof. exact wrong_argument_count_rejected. Qed.
 Print Assumptions C20_wrong_argument_count_rejected.
 
+(* a rejected call changes nothing (in the model: the object sets) and is classified as an error *)
+Theorem C20_rejected_call_changes_nothing : forall tbl parse_conf read_file st words,
+  is_error (dispatch tbl (st_cvs st) (bias_names st) words) = true ->
+  exec tbl parse_conf read_file st words = (st, dispatch tbl (st_cvs st) (bias_names st) words, BErr).
+Proof. exact rejected_unchanged. Qed.
+Print Assumptions C20_rejected_call_changes_nothing.
+
+(* after ANY finite history of script calls (well formed or malformed), steps and engine-side configurations
+   the object sets are consistent (names unique, every bias refers to existing variables: the module is
+   "usable" as far as the model goes), and every further call gets an answer: it runs a body, or it is
+   rejected without changing anything *)
+Theorem C20_usable_after_any_history : forall tbl parse_conf read_file evs st words,
+  state_wf st = true ->
+  let st' := run_events tbl parse_conf read_file st evs in
+  state_wf st' = true /\
+  ((exists k e ex, dispatch tbl (st_cvs st') (bias_names st') words = Run k e ex) \/
+   (is_error (dispatch tbl (st_cvs st') (bias_names st') words) = true /\
+    exec tbl parse_conf read_file st' words = (st', dispatch tbl (st_cvs st') (bias_names st') words, BErr))).
+Proof. exact usable_after_any_history. Qed.
+Print Assumptions C20_usable_after_any_history.
+
+(* configuration given through `cv config` has the same effect (in the model) as the same text given on the
+   engine side, with the command table of the binary *)
+Theorem C20_script_config_equiv : forall parse_conf read_file st main text,
+  do_event script_table parse_conf read_file st (ECmd [main; "config"; text]) =
+  do_event script_table parse_conf read_file st (EConfig text).
+Proof. exact script_table_config_equiv. Qed.
+Print Assumptions C20_script_config_equiv.
+
+(* deleting a variable removes it and exactly the biases that use it; deleting a bias removes only that bias *)
+Theorem C20_delete_effect : forall n st,
+  ((forall c, In c (st_cvs (del_cv n st)) <-> In c (st_cvs st) /\ c <> n) /\
+   (forall b, In b (st_biases (del_cv n st)) <-> In b (st_biases st) /\ ~ In n (snd b))) /\
+  (st_cvs (del_bias n st) = st_cvs st /\
+   (forall b, In b (st_biases (del_bias n st)) <-> In b (st_biases st) /\ fst b <> n)).
+Proof. exact delete_effect. Qed.
+Print Assumptions C20_delete_effect.
+
+(* `colvar getgradients` / `getatomids` (colvar::build_atom_list + cvc::collect_gradients): for any exact commutative and
+   associative addition of contributions, the array depends only on the multiset of (atom id, contribution) pairs - not on
+   the order in which the user listed the atoms of a group, nor on how they are spread over groups, components and fitting
+   groups *)
+Theorem C20_gradients_listing_order_irrelevant : forall (T : Type) (add : T -> T -> T),
+  (forall a b, add a b = add b a) -> (forall a b c, add a (add b c) = add (add a b) c) ->
+  forall ids acc grps grps', Permutation (List.concat grps) (List.concat grps') ->
+  collect_groups add ids acc grps = collect_groups add ids acc grps'.
+Proof. exact gradients_listing_order_irrelevant. Qed.
+Print Assumptions C20_gradients_listing_order_irrelevant.
+
+(* the id list is increasing and holds exactly the ids of the groups, and the entry found for id a holds exactly what was
+   contributed under id a (for every addition, commutative or not: the order of the contributions is the listing order) *)
+Theorem C20_gradients_attributed_to_their_ids : forall (T : Type) (add : T -> T -> T) (zero : T) (grps : list (list (Z * T))),
+  let ids := build_ids (map (map fst) grps) in
+  increasing ids = true /\
+  (forall a, In a ids <-> In a (map fst (List.concat grps))) /\
+  forall a, In a ids ->
+    nth (lower_bound ids a) (collect_groups add ids (repeat zero (List.length ids)) grps) zero = total_for add zero a (List.concat grps).
+Proof. exact gradients_attributed_to_their_ids. Qed.
+Print Assumptions C20_gradients_attributed_to_their_ids.
+
+(* ---- the premises of the implications above are satisfiable ---- *)
 Example C20_example_dispatch :
   dispatch script_table ["x"] [] ["cv"; "version"] = Run OModule ("cv_version", 0, 0) true /\
   is_error (dispatch script_table ["x"] [] ["cv"; "version"; "extra"]) = true /\
-  is_error (dispatch script_table ["x"] [] ["cv"; "colvar"; "y"; "value"]) = true.
+  is_error (dispatch script_table ["x"] [] ["cv"; "colvar"; "y"; "value"]) = true /\
+  dispatch script_table ["x"] [] ["cv"; "colvar"; "y"; "help"] = Run OColvar ("colvar_help", 0, 1) false /\
+  is_error (dispatch script_table ["x"] [] ["cv"; "colvar"]) = true.
 Proof. vm_compute. repeat split. Qed.
+
+Example C20_example_reachable :
+  In ("colvar_value", 0, 0) script_table /\ is_pseudo ("colvar_value", 0, 0) = false /\
+  entry_class ("colvar_value", 0, 0) = Some (OColvar, "value") /\
+  dispatch script_table ["x"] [] (witness_words OColvar "value" "x" ("colvar_value", 0, 0)) = Run OColvar ("colvar_value", 0, 0) true /\
+  is_pseudo ("cv_colvar", 0, 0) = true.
+Proof. vm_compute. repeat split. right; right. repeat (try (left; reflexivity); right). Qed.
+
+Definition ex_parse (s : string) : option (list decl) :=
+  if String.eqb s "A" then Some [DCv "y"; DBias "hy" ["y"; "x"]] else if String.eqb s "B" then Some [DCv "x"] else None.
+Definition ex_read (s : string) : option string := if String.eqb s "f" then Some "A" else None.
+Definition ex_st := mk_state ["x"] [("h", ["x"])].
+
+(* a history with malformed calls, a rejected configuration, a deletion that takes a bias with it, and steps *)
+Example C20_example_history :
+  state_wf ex_st = true /\
+  run_events script_table ex_parse ex_read ex_st
+    [ECmd ["cv"; "config"; "A"]; EStep; ECmd ["cv"; "nosuch"]; ECmd ["cv"; "config"; "B"]; ECmd ["cv"; "colvar"; "q"; "delete"];
+     ECmd ["cv"; "colvar"; "x"; "delete"; "extra"]; ECmd ["cv"; "colvar"; "x"; "delete"]; EStep; ECmd []]
+  = mk_state ["y"] [] /\
+  run_events script_table ex_parse ex_read ex_st [ECmd ["cv"; "configfile"; "f"]; ECmd ["cv"; "bias"; "h"; "delete"]]
+  = mk_state ["x"; "y"] [("hy", ["y"; "x"])] /\
+  exec script_table ex_parse ex_read ex_st ["cv"; "config"; "B"] = (ex_st, Run OModule ("cv_config", 1, 1) true, BErr) /\
+  is_error (dispatch script_table (st_cvs ex_st) (bias_names ex_st) ["cv"; "bias"; "h"; "energy"; "1"]) = true.
+Proof. vm_compute. repeat split. Qed.
+
+(* a group listed in decreasing id order and an atom shared by two groups *)
+Example C20_example_gradients :
+  build_ids [[3; 1]; [4; 1]] = [1; 3; 4] /\
+  collect_groups Z.add [1; 3; 4] [0; 0; 0] [[(3, 10); (1, 20)]; [(4, 5); (1, 7)]] = [27; 10; 5] /\
+  Permutation (List.concat [[(3, 10); (1, 20)]; [(4, 5); (1, 7)]]) (List.concat [[(1, 20); (3, 10); (1, 7)]; [(4, 5)]]) /\
+  collect_groups Z.add [1; 3; 4] [0; 0; 0] [[(1, 20); (3, 10); (1, 7)]; [(4, 5)]] = [27; 10; 5].
+Proof.
+  repeat split; try reflexivity. cbn [List.concat app].
+  apply Permutation_trans with ((1, 20) :: (3, 10) :: (4, 5) :: (1, 7) :: nil); [apply perm_swap|].
+  apply perm_skip, perm_skip, perm_swap.
+Qed.
